@@ -42,7 +42,16 @@ type c09Case struct {
 	DataMs   int       `json:"data_timeout_ms"`
 	CancelMs int       `json:"cancel_after_ms"` // 0: never
 	IP       [4]byte   `json:"ip"`              // 127.x.y.z
+	// the probed address is 0.0.0.0 (Linux connects it to the local host; the server sees 127.0.0.1, which is then the script key IP)
+	Unspecified bool `json:"probe_0_0_0_0,omitempty"`
+	// the Scanner is one that earlier cases of this process already used (as the scan engine shares one among all probes)
+	SharedScanner bool `json:"scanner_shared_with_earlier_cases,omitempty"`
 }
+
+var c09Shared = struct {
+	sync.Mutex
+	m map[[2]int]scan.Scanner
+}{m: map[[2]int]scan.Scanner{}}
 
 // ---- the scripted server: one listener on 0.0.0.0, the script is chosen by the address the client dialled
 
@@ -258,7 +267,19 @@ func c09Check(c c09Case) *kit.Verdict {
 			return &kit.Verdict{Inconclusive: true}
 		}
 	}
-	s := NewScanner(WithDialTimeout(D), WithDataTimeout(T))
+	var s scan.Scanner
+	if c.SharedScanner {
+		c09Shared.Lock()
+		s = c09Shared.m[[2]int{c.DialMs, c.DataMs}]
+		if s == nil {
+			s = NewScanner(WithDialTimeout(D), WithDataTimeout(T))
+			c09Shared.m[[2]int{c.DialMs, c.DataMs}] = s
+		}
+		c09Shared.Unlock()
+		v.Label("shared-scanner")
+	} else {
+		s = NewScanner(WithDialTimeout(D), WithDataTimeout(T))
+	}
 	ctx, cancel := context.WithCancel(context.Background())
 	defer cancel()
 	var cancelAt time.Time
@@ -266,7 +287,12 @@ func c09Check(c c09Case) *kit.Verdict {
 		tm := time.AfterFunc(time.Duration(c.CancelMs)*time.Millisecond, func() { cancelAt = time.Now(); cancel() })
 		defer tm.Stop()
 	}
-	req := &scan.Request{DstIP: net.IP(c.IP[:]), DstPort: uint16(port)}
+	probed := net.IP(c.IP[:])
+	if c.Unspecified {
+		probed = net.IPv4(0, 0, 0, 0).To4()
+		v.Label("probe-0.0.0.0")
+	}
+	req := &scan.Request{DstIP: probed, DstPort: uint16(port)}
 	type outcome struct {
 		res scan.Result
 		err error
@@ -317,8 +343,8 @@ func c09Check(c c09Case) *kit.Verdict {
 			return v.Failf("reported as SOCKS5 proxy although the first two reply bytes are not 05 00 (server: %+v; reply bytes %x)", sc, sent)
 		}
 		r, ok := o.res.(*ScanResult)
-		if !ok || r.IP != net.IP(c.IP[:]).String() || int(r.Port) != port || r.ScanType != "socks" || r.Version != 5 {
-			return v.Failf("record %+v does not carry the probed address %v:%d", o.res, net.IP(c.IP[:]), port)
+		if !ok || r.IP != probed.String() || int(r.Port) != port || r.ScanType != "socks" || r.Version != 5 {
+			return v.Failf("record %+v does not carry the probed address %v:%d", o.res, probed, port)
 		}
 	}
 	// delivery is certain when the server read the greeting before replying (no reset races) and nothing was cancelled
@@ -380,7 +406,7 @@ func c09GenReply(t *rapid.T) []byte {
 func TestC09Scripts(t *testing.T) {
 	kit.Run(t, kit.Spec[c09Case]{
 		Prop: "C09",
-		Rule: "the real socks5.Scanner against a scripted loopback server chosen per probed address in 127.0.0.0/8: refuse; listener whose accept queue is full (SYNs dropped: dial timeout); accept and close/reset at once; reply bytes (05 00, 05 xx, xx 00, one byte, none, 05 00 + extra, garbage) sent before or after reading the greeting, whole or split into segments with pauses <= T/4, then stall / close / reset / flood / a trickle of single bytes every 5..40 ms for up to 160 s; connect and data timeouts 60..300 ms; optional cancellation at a drawn instant (with 20 s timeouts). Oracle: a record only if the first two bytes sent are 05 00, carrying the probed ip/port; a record is demanded when 05 00 was sent after reading the greeting (delivery certain); no connection => error; greeting seen by the server = 05 01 00; elapsed <= connect + 3 x data timeout + 3 s; after a cancel the probe returns within 3 s. non-trivial: anything but the plain full reply; distinct by case",
+		Rule: "the real socks5.Scanner against a scripted loopback server chosen per probed address in 127.0.0.0/8: refuse; listener whose accept queue is full (SYNs dropped: dial timeout); accept and close/reset at once; reply bytes (05 00, 05 xx, xx 00, one byte, none, 05 00 + extra, garbage) sent before or after reading the greeting, whole or split into segments with pauses <= T/4, then stall / close / reset / flood / a trickle of single bytes every 5..40 ms for up to 160 s; connect and data timeouts 60..300 ms; optional cancellation at a drawn instant (with 20 s timeouts); half of the probes through a Scanner that earlier cases already used (the engine shares one among all probes), one accepted case in ten probes 0.0.0.0 (which Linux connects to the local host). Oracle: a record only if the first two bytes sent are 05 00, carrying the probed ip/port; a record is demanded when 05 00 was sent after reading the greeting (delivery certain); no connection => error; greeting seen by the server = 05 01 00; elapsed <= connect + 3 x data timeout + 3 s; after a cancel the probe returns within 3 s. non-trivial: anything but the plain full reply; distinct by case",
 		Gen: func(t *rapid.T) c09Case {
 			c := c09Case{IP: c09GenIP(t), DialMs: rapid.SampledFrom([]int{60, 150, 300}).Draw(t, "dial"), DataMs: rapid.SampledFrom([]int{60, 150, 300}).Draw(t, "data")}
 			sc := &c.Script
@@ -407,6 +433,10 @@ func TestC09Scripts(t *testing.T) {
 			if rapid.IntRange(0, 4).Draw(t, "cancel") == 0 {
 				c.DialMs, c.DataMs = 20000, 20000
 				c.CancelMs = rapid.SampledFrom([]int{1, 20, 120}).Draw(t, "cancelms")
+			}
+			c.SharedScanner = rapid.Bool().Draw(t, "shared-scanner")
+			if sc.Mode == "accept" && rapid.IntRange(0, 9).Draw(t, "unspecified") == 0 {
+				c.Unspecified, c.IP = true, [4]byte{127, 0, 0, 1}
 			}
 			return c
 		},
